@@ -1,7 +1,7 @@
 (* Property C13 — wiring invariants hold for every size and seed.
    Random draws are universally quantified: "every seed" = every permutation / every in-range draw. *)
 From Coq Require Import String List Arith Bool Permutation.
-From TLX Require Import Model.Wiring Proofs.WiringFacts Proofs.SlicesFacts Proofs.UniqueCover Proofs.TreeCount.
+From TLX Require Import Model.Wiring Proofs.WiringFacts Proofs.SlicesFacts Proofs.UniqueCover Proofs.TreeCount Proofs.RowEnds.
 Import ListNotations.
 
 (* dense 'unique': no neuron wired to one input twice (a < b), all wires exist, no two neurons share a pair *)
@@ -104,6 +104,16 @@ Proof. exact tree_levels_halve. Qed.
 Theorem C13_documented_count_refuted : exists d, 1 <= d /\ gates_per_kernel d <> 2 ^ d - 1.
 Proof. exact documented_count_refuted. Qed.
 
+(* the ends of every row of the pair triangle, for every size (the draws the check supplies for receptive fields of thousands of
+   positions): first number of row i = pair (i, i+1), last number = pair (i, P-1); no number of a row is a degenerate pair *)
+Theorem C13_unrank_row_first : forall P i, i + 1 < P -> unrank P (row_start P i) = (i, i + 1).
+Proof. exact unrank_row_first. Qed.
+Theorem C13_unrank_row_last : forall P i, i + 1 < P -> unrank P (row_start P (S i) - 1) = (i, P - 1).
+Proof. exact unrank_row_last. Qed.
+Theorem C13_unrank_never_degenerate : forall P i v, i < P -> row_start P i <= v < row_start P (S i) ->
+  fst (unrank P v) < snd (unrank P v) /\ snd (unrank P v) < P.
+Proof. exact unrank_never_degenerate. Qed.
+
 Eval compute in "PA:C13_unique"%string. Print Assumptions C13_unique.
 Eval compute in "PA:C13_unique_rejects"%string. Print Assumptions C13_unique_rejects.
 Eval compute in "PA:C13_unique_slices"%string. Print Assumptions C13_unique_slices.
@@ -120,3 +130,6 @@ Eval compute in "PA:C13_unique_cover_all_refuted"%string. Print Assumptions C13_
 Eval compute in "PA:C13_tree_count"%string. Print Assumptions C13_tree_count.
 Eval compute in "PA:C13_tree_levels_halve"%string. Print Assumptions C13_tree_levels_halve.
 Eval compute in "PA:C13_documented_count_refuted"%string. Print Assumptions C13_documented_count_refuted.
+Eval compute in "PA:C13_unrank_row_first"%string. Print Assumptions C13_unrank_row_first.
+Eval compute in "PA:C13_unrank_row_last"%string. Print Assumptions C13_unrank_row_last.
+Eval compute in "PA:C13_unrank_never_degenerate"%string. Print Assumptions C13_unrank_never_degenerate.
